@@ -56,6 +56,10 @@ def validCursor (line : Str) (ch : Nat) : Bool :=
 def indexSuperset (t : Table) : Bool :=
   t.byPrefix.all fun (k, l) => t.accounts.all fun n => !k.isPrefixOf n || l.contains n
 
+/-- ... and nothing that is not an account of the table. -/
+def indexSubset (t : Table) : Bool :=
+  t.byPrefix.all fun (_, l) => l.all fun n => t.accounts.contains n
+
 /-! ### The judgement on one answer -/
 
 structure Answer where
